@@ -6,6 +6,7 @@ package c03b
 
 import (
 	"fmt"
+	"net/url"
 	"strconv"
 	"strings"
 )
@@ -18,6 +19,7 @@ type CommitSpec struct {
 	Size    int      // number of operations in the pack (0, 1, 2)
 	Author  int      // 0 or 1: which of the two identities authors the pack
 	K       int      // content slot: commit 0 -> K-th root pack; others -> K-th smallest pack id of its (size, author) group
+	Ver     []string // spellings of the "version-<n>" tree entries (nil: the one canonical entry "version-4")
 }
 
 // Spec is a crafted history; the ref points at the last commit.
@@ -39,19 +41,54 @@ func (s Spec) String() string {
 			sb.WriteString(strconv.Itoa(p))
 		}
 		sb.WriteByte('e')
-		sb.WriteString(strings.Join(c.Edit, "."))
+		sb.WriteString(joinList(c.Edit))
 		sb.WriteByte('c')
-		sb.WriteString(strings.Join(c.Create, "."))
+		sb.WriteString(joinList(c.Create))
 		fmt.Fprintf(&sb, "s%da%dk%d", c.Size, c.Author, c.K)
+		if c.Ver != nil {
+			sb.WriteByte('v')
+			sb.WriteString(joinList(c.Ver))
+		}
 	}
 	return sb.String()
+}
+
+// Entry suffixes are arbitrary strings in the spelling family (blanks, signs, full-width digits, nothing
+// at all): they are query-escaped in the one-token form (upper-case hex only, so none of the lower-case
+// field letters can appear); the empty suffix is written "%".
+func escSuffix(s string) string {
+	if s == "" {
+		return "%"
+	}
+	return url.QueryEscape(s)
+}
+
+func unescSuffix(s string) (string, error) {
+	if s == "%" {
+		return "", nil
+	}
+	return url.QueryUnescape(s)
+}
+
+func joinList(l []string) string {
+	out := make([]string, len(l))
+	for i, s := range l {
+		out[i] = escSuffix(s)
+	}
+	return strings.Join(out, ".")
 }
 
 func splitList(s string) []string {
 	if s == "" {
 		return nil
 	}
-	return strings.Split(s, ".")
+	out := strings.Split(s, ".")
+	for i := range out {
+		if u, err := unescSuffix(out[i]); err == nil {
+			out[i] = u
+		}
+	}
+	return out
 }
 
 // ParseSpec is the inverse of String.
@@ -81,7 +118,15 @@ func ParseSpec(str string) (Spec, error) {
 		if c.Author, err = strconv.Atoi(part[ia+1 : ik]); err != nil {
 			return nil, err
 		}
-		if c.K, err = strconv.Atoi(part[ik+1:]); err != nil {
+		kEnd := len(part)
+		if iv := strings.IndexByte(part[ik:], 'v'); iv >= 0 {
+			kEnd = ik + iv
+			c.Ver = splitList(part[kEnd+1:])
+			if c.Ver == nil {
+				c.Ver = []string{}
+			}
+		}
+		if c.K, err = strconv.Atoi(part[ik+1 : kEnd]); err != nil {
 			return nil, err
 		}
 		out = append(out, c)
@@ -95,6 +140,9 @@ func (s Spec) clone() Spec {
 		c.Parents = append([]int(nil), c.Parents...)
 		c.Edit = append([]string(nil), c.Edit...)
 		c.Create = append([]string(nil), c.Create...)
+		if c.Ver != nil {
+			c.Ver = append([]string{}, c.Ver...)
+		}
 		out[i] = c
 	}
 	return out
